@@ -175,7 +175,7 @@ def schedule_of(trace, n_seeds, n_workers, owner_of):
             name = label.split()[1]
             out.append("feeder:%s:q1" % owner_of.get(name, "w0"))
         else:
-            if head in ("get", "cb_start", "cb_end", "cb_raise", "put-done", "exit"):
+            if head in ("get", "cb_start", "cb_end", "cb_raise", "put-done", "timeout", "timeout-exit", "timeout-retry", "flagcheck-exit", "flagcheck-retry", "readflag"):
                 out.append(actor)
     return out
 
@@ -246,12 +246,29 @@ def live_closure(cfg, seeds):
 
 # ---------------------------------------------------------------- the check
 
+def job_config(run, cfg_name, n_workers, cap):
+    cfg = {c.name: c for c in (S1, S2, S2W, S3)}[cfg_name]
+    R, facts = mpmodel.learn_dispatcher_cached() if hasattr(mpmodel, "learn_dispatcher_cached") else learn(Run_silent(run))
+    table = walk_worker_table()
+    check_config(run, cfg, n_workers, R, table, cap, run.tier)
+
+
+class Run_silent:
+    """learn() records an obligation; inside a sub-job that record is redundant."""
+
+    def __init__(self, run):
+        self.run = run
+
+    def ob(self, *a, **k):
+        pass
+
+
 def check_config(run, cfg, n_workers, R, table, max_live_seeds, tier):
     name = "%s[W=%d%s]" % (cfg.name, n_workers, ",<=%d live seeds" % max_live_seeds if max_live_seeds else "")
     shutdown, done_max, nstart, seeds, loop_polls, apex_breaks = shutdown_script(cfg, n_workers)
     if nstart != n_workers:
         raise HarnessError("walk started %d workers for parallel=%d" % (nstart, n_workers))
-    ts = mpmodel.walk_ts(cfg.tree, n_workers, R, table["post_item"], done_max, shutdown, max_live_seeds=max_live_seeds, apex_breaks=apex_breaks)
+    ts = mpmodel.walk_ts(cfg.tree, n_workers, R, table["post_item"], done_max, shutdown, max_live_seeds=max_live_seeds, apex_breaks=apex_breaks, flag_read=table.get("flag_read", "after_empty"))
     K = ts.max_steps
     t0 = time.time()
     U = bmc.Unrolled(ts, K, timeout_ms=1500000 if tier == "thorough" else 400000)
@@ -262,8 +279,7 @@ def check_config(run, cfg, n_workers, R, table, max_live_seeds, tier):
         ("child-before-parent", U.exists(lambda s: s["err"] == 1), "a parent's callback starts before a live child's callback has ended, or a tile is released twice"),
         ("exactly-once", U.exists(lambda s: z3.Or(*[z3.Or(z3.UGT(s["cb%d" % i], 1), z3.And(z3.Not(ts.live[i]), s["cb%d" % i] != 0)) for i in range(ts.N)])),
          "a tile's callback runs twice, or runs for a tile with no live leaf below it"),
-        ("no-deadlock", U.exists(lambda s: z3.And(z3.Not(U.enabled(s)), z3.Not(mpmodel.walk_good_final(ts, s)))), "the walk deadlocks before completing"),
-        ("terminates", z3.Or(z3.Not(mpmodel.walk_good_final(ts, U.final())), U.enabled(U.final())), "after the complete step bound the walk has not returned with every live parent processed once"),
+        ("no-deadlock", U.exists(lambda s: z3.And(z3.Not(U.enabled(s, progress_only=True)), z3.Not(mpmodel.walk_good_final(ts, s)))), "the walk gets stuck (no process can make progress) before completing"),
     ]
     for qn, bad, what in queries:
         r, m, dt = U.check(bad)
@@ -344,9 +360,8 @@ def check(run):
         plans = [(S1, 2, 2), (S2, 2, None), (S3, 2, None)]
         if run.tier == "thorough":
             plans = [(S1, 2, None), (S2, 2, None), (S3, 2, None), (S1, 3, 2), (S2, 3, None), (S2W, 2, None)]
-        for cfg, w, cap in plans:
-            if only and not any(o == cfg.name.split("-")[0] or "parallel" in o for o in only):
-                continue
-            check_config(run, cfg, w, R, table, cap, run.tier)
+        from vlib.core import run_parallel
+        jobs = [(cfg.name, w, cap) for cfg, w, cap in plans if not only or any(o == cfg.name.split("-")[0] or "parallel" in o for o in only)]
+        run_parallel(run, __name__, "job_config", jobs)
     except HarnessError as e:
         run.error("parallel-walk", e)
